@@ -320,7 +320,11 @@ func (s MinPriorityCoinSelector) CoinSelect(targetValue bchutil.Amount, coins []
 				}
 
 				extendedCoins.PushCoin(possibleCoins[n])
-				if extendedCoins.TotalValueAge()/int64(extendedCoins.Num()) < s.MinAvgValueAgePerInput {
+				if extendedCoins.TotalValueAge()/int64(extendedCoins.Num()) < s.MinAvgValueAgePerInput ||
+					!satisfiesTargetValue(targetValue, s.MinChangeAmount, extendedCoins.TotalValue()) {
+					// The extra coin must not break the average priority nor
+					// turn an exact (or sufficient) total into one whose
+					// change is below the minimum change amount.
 					extendedCoins.PopCoin()
 					continue
 				}
